@@ -10,11 +10,41 @@ import sys
 import time
 
 VERIF = os.path.dirname(os.path.dirname(os.path.abspath(__file__)))
-REPO = os.environ.get("VERIF_REPO", "/repo")
-CRATES = os.path.join(VERIF, "crates")
-TARGET = os.environ.get("VERIF_TARGET_DIR", os.path.join(VERIF, "target"))
-EVIDENCE = os.path.join(VERIF, "evidence")
-REPLAY = os.path.join(VERIF, "replay")
+REPO = os.path.abspath(os.environ.get("VERIF_REPO", "/repo"))
+# Registered commands always run against /repo.  For development (sensitivity
+# runs against a scratch worktree, several agents in parallel) VERIF_REPO points
+# somewhere else; then the harness workspace is mirrored with its /repo paths
+# rewritten, and build output / evidence / replay files go next to the mirror so
+# that nothing under /verif is touched.
+if REPO == "/repo":
+    _ALT = None
+    CRATES = os.path.join(VERIF, "crates")
+    TARGET = os.environ.get("VERIF_TARGET_DIR", os.path.join(VERIF, "target"))
+    EVIDENCE = os.path.join(VERIF, "evidence")
+    REPLAY = os.path.join(VERIF, "replay")
+else:
+    _ALT = os.path.join("/var/tmp", "verif-mirror-" + hashlib.sha256(REPO.encode()).hexdigest()[:10])
+    CRATES = os.path.join(_ALT, "crates")
+    TARGET = os.environ.get("VERIF_TARGET_DIR", os.path.join(_ALT, "target"))
+    EVIDENCE = os.path.join(_ALT, "evidence")
+    REPLAY = os.path.join(_ALT, "replay")
+_MIRRORED = False
+
+
+def sync_mirror():
+    """When VERIF_REPO != /repo: copy /verif/crates to the mirror with every
+    `/repo/` path in the workspace manifest rewritten."""
+    global _MIRRORED
+    if _ALT is None or _MIRRORED:
+        return
+    os.makedirs(CRATES, exist_ok=True)
+    subprocess.run(["rsync", "-a", "--delete", "--exclude", "target", os.path.join(VERIF, "crates") + "/", CRATES + "/"], check=True)
+    mf = os.path.join(CRATES, "Cargo.toml")
+    with open(mf) as f:
+        txt = f.read()
+    with open(mf, "w") as f:
+        f.write(txt.replace('"/repo/', '"%s/' % REPO))
+    _MIRRORED = True
 GUARD = "bytecodealliance_wit_bindgen_verif"
 NPROC = os.cpu_count() or 4
 
@@ -84,6 +114,7 @@ def base_env(extra=None, hooks=True):
     env = dict(os.environ)
     env["CARGO_NET_OFFLINE"] = "true"
     env["CARGO_TARGET_DIR"] = TARGET
+    env["VERIF_REPO"] = REPO
     env.setdefault("CARGO_TERM_COLOR", "never")
     flags = env.get("VERIF_EXTRA_RUSTFLAGS", "")
     if hooks:
@@ -115,6 +146,7 @@ def cargo_build(package, bins=None, release=False, features=None, toolchain=None
     """Incremental build in /verif/target against /repo's working tree.
     Returns the directory holding the binaries.  A failed build is a harness
     failure (exit 2), never a verdict."""
+    sync_mirror()
     cmd = ["cargo"]
     if toolchain:
         cmd.append("+" + toolchain)
